@@ -24,17 +24,17 @@ def coq_files():
     return [f for f in vlib.coq_files(CODEC) if f not in ("Extract.v",)]
 
 
-CODEC_REQUIRES = ["FlacCodec.Wf", "FlacCodec.Stream", "FlacCodec.Progress", "FlacCodec.Props_codec", "FlacCodec.Pins"]
+CODEC_REQUIRES = ["FlacCodec.Wf", "FlacCodec.Spec", "FlacCodec.Stream", "FlacCodec.Progress", "FlacCodec.Props_codec", "FlacCodec.Pins"]
 BASE_THEOREMS = ["crc16_valid_single_bit_detected", "crc8_valid_single_bit_detected"]
 # property -> theorems of coq/codec/Props_codec.v claimed for it (grows as proofs land)
 THEOREMS = {
-    "C01": ["C17_parse_inverts_write", "ex_frame_roundtrip"],
-    "C02": ["C17_parse_inverts_write", "crc16_append", "crc8_append"],
-    "C03": ["C17_parse_inverts_write"],
+    "C01": ["C01_decoders_agree", "C03_decoder_follows_format", "C17_parse_inverts_write", "ex_frame_roundtrip"],
+    "C02": ["C02_reference_decoder_accepts", "C17_parse_inverts_write", "crc16_append", "crc8_append"],
+    "C03": ["C03_decoder_follows_format", "C17_parse_inverts_write", "ex_frame_spec"],
     "C04": ["C04_frame_total_release", "C04_stream_total_release", "C04_frame_progress"],
     "C05": BASE_THEOREMS + ["crc16_single_bit", "crc16_append", "crc8_append"],
-    "C14": ["C04_frame_progress", "C17_parse_inverts_write"],
-    "C16": ["C17_parse_inverts_write"],
+    "C14": ["C04_frame_progress", "C03_decoder_follows_format"],
+    "C16": ["C03_decoder_follows_format", "C17_parse_inverts_write"],
     "C17": ["C17_parse_inverts_write", "ex_frame_wf", "ex_frame_roundtrip"],
     "C19": ["C17_parse_inverts_write"],
 }
